@@ -108,6 +108,10 @@ func (e *Engine) callFunction(st *State, fn *ssa.Function, args []Value, binding
 		e.stack = e.stack[:len(e.stack)-1]
 		return outs
 	}
+	if fn.Pkg != nil && fn.Pkg.Pkg.Path() == "github.com/sirupsen/logrus" || key == "github.com/matrix-org/util.GetLogger" {
+		// logging has empty bodies: results are zero values, *Entry results a dummy entry
+		return one(st, e.logStub(st, fn))
+	}
 	if fn.Name() == "init" && fn.Signature.Recv() == nil && fn.Parent() == nil && fn.Synthetic != "" {
 		// package initialiser of a dependency: handled lazily
 		return one(st, nil)
@@ -746,4 +750,29 @@ func (e *Engine) symLoadMergeable(st *State, p *PtrV) bool {
 		}
 	}
 	return true
+}
+
+// logStub builds the result of a logging call: zero values, with pointer results pointing at fresh zero objects so
+// that chained calls (WithField(...).Warnf(...)) have a receiver.
+func (e *Engine) logStub(st *State, fn *ssa.Function) Value {
+	res := fn.Signature.Results()
+	mk := func(t types.Type) Value {
+		if p, ok := t.Underlying().(*types.Pointer); ok {
+			if _, isStruct := p.Elem().Underlying().(*types.Struct); isStruct {
+				return &PtrV{Obj: e.alloc(st, e.zero(p.Elem()))}
+			}
+		}
+		return e.zero(t)
+	}
+	switch res.Len() {
+	case 0:
+		return nil
+	case 1:
+		return mk(res.At(0).Type())
+	}
+	el := make([]Value, res.Len())
+	for i := range el {
+		el[i] = mk(res.At(i).Type())
+	}
+	return &TupleV{E: el}
 }
